@@ -84,7 +84,16 @@ class Mini:
                 self.assign(st.target, self.expr(st.value))
         elif isinstance(st, ast.AugAssign):
             cur = self.expr(_load(st.target))
-            self.assign(st.target, self.binop(st.op, cur, self.expr(st.value)))
+            rhs = self.expr(st.value)
+            if isinstance(cur, list) and isinstance(st.op, ast.Add):
+                if not isinstance(rhs, (list, tuple)):
+                    raise Unsupported("list += non-sequence")
+                cur.extend(rhs)          # in place: every alias of the list sees it, as in Python
+                self.assign(st.target, cur)
+            elif isinstance(cur, list) and isinstance(st.op, ast.Mult):
+                raise Unsupported("list *=")
+            else:
+                self.assign(st.target, self.binop(st.op, cur, rhs))
         elif isinstance(st, ast.Expr):
             if isinstance(st.value, ast.Constant):
                 return
@@ -97,7 +106,14 @@ class Mini:
             if not isinstance(it, (list, tuple, range)):
                 raise Unsupported(f"for over {type(it).__name__}")
             broke = False
-            for v in list(it):
+            idx_ = 0
+            seq = it if isinstance(it, list) else list(it)     # a list is iterated live (items appended by the body are visited), as in Python
+            while idx_ < len(seq):
+                v = seq[idx_]
+                idx_ += 1
+                self.fuel -= 1
+                if self.fuel < 0:
+                    raise Unsupported("evaluation budget exhausted")
                 self.assign(st.target, v)
                 try:
                     for s in st.body:
@@ -394,10 +410,20 @@ class Mini:
             if not isinstance(it, (list, tuple, range)):
                 raise Unsupported("comprehension over " + type(it).__name__)
             out = []
-            for v in list(it):
-                self.assign(g.target, v)
-                if all(self.truth(self.expr(c)) for c in g.ifs):
-                    out.append(self.expr(e.elt))
+            # the comprehension's variables are its own: whatever the names were bound to outside is restored afterwards
+            tnames = [x.id for x in ast.walk(g.target) if isinstance(x, ast.Name)]
+            saved = {nm: self.env[nm] for nm in tnames if nm in self.env}
+            try:
+                for v in list(it):
+                    self.assign(g.target, v)
+                    if all(self.truth(self.expr(c)) for c in g.ifs):
+                        out.append(self.expr(e.elt))
+            finally:
+                for nm in tnames:
+                    if nm in saved:
+                        self.env[nm] = saved[nm]
+                    else:
+                        self.env.pop(nm, None)
             return out
         if isinstance(e, ast.Set):
             vs = [self.expr(x) for x in e.elts]
@@ -486,6 +512,34 @@ class Mini:
                 return self.expr(e.args[1])
             if f in self.externals:
                 return self.externals[f](*[self.expr(a) for a in e.args])
+            if f in ("all", "any") and len(e.args) == 1 and isinstance(e.args[0], ast.GeneratorExp) and len(e.args[0].generators) == 1 and f not in self.env and f not in self.helpers:
+                # lazily, as Python does: the generator stops at the first deciding element (later elements' side effects do not happen)
+                g = e.args[0].generators[0]
+                it = self.expr(g.iter)
+                if not isinstance(it, (list, tuple, range)):
+                    raise Unsupported("generator over " + type(it).__name__)
+                tnames = [x.id for x in ast.walk(g.target) if isinstance(x, ast.Name)]
+                saved = {nm: self.env[nm] for nm in tnames if nm in self.env}
+                result = (f == "all")
+                try:
+                    for v in list(it):
+                        self.assign(g.target, v)
+                        if not all(self.truth(self.expr(c)) for c in g.ifs):
+                            continue
+                        t_ = self.truth(self.expr(e.args[0].elt))
+                        if f == "all" and not t_:
+                            result = False
+                            break
+                        if f == "any" and t_:
+                            result = True
+                            break
+                finally:
+                    for nm in tnames:
+                        if nm in saved:
+                            self.env[nm] = saved[nm]
+                        else:
+                            self.env.pop(nm, None)
+                return result
             if f in self.helpers and f not in self.env:
                 fn = self.helpers[f]
                 params = [a.arg for a in fn.args.posonlyargs + fn.args.args]
